@@ -45,6 +45,8 @@ theorem close_step (l : List Nat) (i n x : Nat) (hn : n ≤ i) (hx : l[i]? = som
 /-- no injected `openPoll` failure, no ticket ≥ 2^63 so far (both counters only grow) -/
 def Clean (s : S) : Prop := s.fails = 0 ∧ s.wraps = 0
 
+instance (s : S) : Decidable (Clean s) := inferInstanceAs (Decidable (_ ∧ _))
+
 /-- `l` consists of distinct running pollers and accounts for every poller still open -/
 def SliceOK (opened : Nat) (started closed : List Nat) (l : List Nat) : Prop :=
   l.Nodup ∧ (∀ id, id ∈ l → id < opened ∧ id ∈ started ∧ id ∉ closed) ∧
